@@ -131,8 +131,9 @@ eval(struct expr *expr)
 		case TBAND:
 			switch (l->kind) {
 			case EXPRUNARY:
+				/* l->base has been evaluated already; evaluating it again is exponential in the nesting */
 				if (l->op == TMUL)
-					expr = eval(l->base);
+					expr = l->base;
 				break;
 			case EXPRSTRING:
 				l->u.ident.decl = stringdecl(l);
@@ -142,6 +143,7 @@ eval(struct expr *expr)
 			}
 			break;
 		case TMUL:
+			expr->base = l;
 			break;
 		default:
 			if (l->kind != EXPRCONST)
